@@ -3,6 +3,7 @@ import LarkVerif.Repeat
 import LarkVerif.Props.C06
 import LarkVerif.Indenter
 import LarkVerif.LexModel
+import LarkVerif.LexTiling
 import LarkVerif.EarleyExec
 import LarkVerif.LRCheck
 import LarkVerif.LRComplete
@@ -136,11 +137,16 @@ def runLex (j : Json) : Except String Json := do
   let start := (← getNat j "start")
   let mode ← getStr j "mode"
   let (toks, err) ←
-    if mode == "basic" then pure (L.lexBasic F all n (n + 1) start)
+    if mode == "basic" then
+      -- the function the tiling theorem is about; `lexBasic` is cross-checked below
+      let r := L.lexAllPieces F all n (n + 1) start
+      let sorted := L.sorted all
+      pure (emitted r.1, if r.2.2 then some (LexErr.chars r.2.1 ((L.scanList sorted).filter (fun t => !L.ignore.contains t))) else none)
     else do
       let subsets ← (← getArr j "subsets").mapM natListOf
       pure (L.lexCtx F all n subsets start)
-  pure (Json.mkObj [("toks", Json.arr (toks.map (fun (t, p, l) => natArr [t, p, l])).toArray),
+  let agree := mode != "basic" || (L.lexBasic F all n (n + 1) start).1 == toks
+  pure (Json.mkObj [("agree", Json.bool agree), ("toks", Json.arr (toks.map (fun (t, p, l) => natArr [t, p, l])).toArray),
                     ("err", match err with | none => Json.null | some e => lexErrJ e),
                     ("order", natArr (L.scanList (L.sorted all)))])
 
